@@ -147,7 +147,29 @@ def evaluate(case):
     return rec
 
 
+# values outside 0..1 are legal and mean 0 / 1 (SVG 1.1 painting: "any values outside the range 0.0 to 1.0 will be clamped"):
+# the clamp has to happen BEFORE opacities are multiplied
+OOR = {"opacity": ["1.5", "-0.5"], "fill-opacity": ["2", "-1"]}
+
+
+def oor_cases(tier):
+    for tpl, levels in TEMPLATES.items():
+        if tier == "quick" and tpl == "T3":
+            continue
+        oor = [(lv, prop, carrier, v) for lv in levels for prop, vals in OOR.items() for v in vals for carrier in (("attr", "style") if tier == "thorough" or tpl == "T1" else ("attr",))]
+        partners = [(lv, prop, "attr", v) for lv in levels for prop in OOR for v in ("0.5",)] + [s for s in oor if s[2] == "attr"]
+        for s1 in oor:
+            yield tpl, (s1,)
+            for s2 in partners:
+                combo = (s1, s2)
+                if s1 < s2 and valid_combo(combo):
+                    yield tpl, combo
+                elif s2[3] == "0.5" and valid_combo(combo):
+                    yield tpl, combo
+
+
 def all_cases(tier):
+    yield from oor_cases(tier)
     for tpl, levels in TEMPLATES.items():
         alpha = settings_alphabet(levels, "full" if tpl == "T1" else "small")
         yield tpl, ()
@@ -186,7 +208,7 @@ def run(run):
     run.rule = (
         "E2 deviation-bounded + R3: templates T1 root>g1>g2>{A (self-overlapping path), B (overlapping circle)}, T2 root>g1>use>target group t{A,B}, T3 root>{g1{A,C},B}, T4 root>{use>A (the shape itself), B}; "
         "setting = (level, property in {fill, fill-opacity, opacity, display, fill-rule, stroke}, carrier in {attribute, style, both with different values}, value incl. explicit defaults "
-        "and zero opacities); all documents with 0, 1, 2 settings (quick; reduced alphabets for pairs on T2/T3), 3 settings on T1 (thorough). Excluded by scope: visible stroke together with an "
+        "and zero opacities); opacity / fill-opacity values outside 0..1 (1.5, -0.5, 2, -1) singly and paired with a second opacity setting at any level (the clamp precedes the product); all documents with 0, 1, 2 settings (quick; reduced alphabets for pairs on T2/T3), 3 settings on T1 (thorough). Excluded by scope: visible stroke together with an "
         "opacity 0.5 setting. Oracle: canonical stacks and composites equal outside the band; vanished content absent (no display:none / fill:none / opacity 0 / empty path in the output). "
         "Non-trivial = document with >= 1 setting and >= 30 inside / >= 30 outside compared points."
     )
